@@ -623,6 +623,7 @@ pub fn main(args: &Args) {
             Some(4) => node::run_node(c),
             Some(5) => node::run_pres(c),
             Some(6) => node::run_wants(c),
+            Some(7) => node::run_blocks_msg(c),
             _ => None,
         }));
         match r {
@@ -653,8 +654,9 @@ pub fn main(args: &Args) {
             30..=54 => gen_send(&mut r, thorough),
             55..=58 => gen_e2e(&mut r, thorough),
             59..=87 => node::gen_node(&mut r, thorough),
-            88..=93 => node::gen_pres(&mut r, thorough),
-            _ => node::gen_wants(&mut r, thorough),
+            88..=92 => node::gen_pres(&mut r, thorough),
+            93..=97 => node::gen_wants(&mut r, thorough),
+            _ => node::gen_blocks_msg(&mut r),
         };
         let t = run(&c, &mut net);
         out.emit(&c, &t);
